@@ -118,11 +118,27 @@ fn placements(file: &[u8], n: u32) -> String {
 }
 
 fn check_history(h: &History, wseed: u64, style: XrefStyle, objstm: bool, out: &mut ShardOut) -> Vec<Finding> {
+    check_history_with(h, wseed, style, objstm, false, out)
+}
+
+/// `stale_size`: the update sections repeat the Size of the revision they update although they add objects (what a
+/// sloppy producer writes and the reader is expected to put right)
+fn check_history_with(h: &History, wseed: u64, style: XrefStyle, objstm: bool, stale_size: bool, out: &mut ShardOut) -> Vec<Finding> {
     // the lexical layer is C02's subject; its known raw-CR finding is kept out of the histories
     let mut dis = BTreeSet::new();
     dis.insert("str-raw-cr-eol".to_string());
     dis.insert("str-raw-crlf-eol".to_string());
-    let (w, used) = write_history(wseed, &dis, h, style, objstm);
+    let (w, used) = if stale_size {
+        let mut ch = Choices::new(wseed);
+        ch.disabled = dis.clone();
+        let mut rw = RefWriter::new(&mut ch);
+        rw.stale_update_size = true;
+        let w = rw.write(h, style, objstm);
+        out.count("histories_with_stale_size_in_updates");
+        (w, ch.used)
+    } else {
+        write_history(wseed, &dis, h, style, objstm)
+    };
     for f in used.keys() {
         if f.starts_with("object-streams") || f.starts_with("xref") || f.starts_with("indirect") {
             out.add(&format!("feature:{}", f), 1);
@@ -599,7 +615,7 @@ pub fn run(cfg: &RunCfg) -> (PropMeta, ShardOut, Map<String, Value>) {
                 out.evaluations += 1;
                 out.count(&format!("histories_with_{}_updates", if h.revisions.len() > 30 { "more_than_30".to_string() } else { (h.revisions.len() - 1).to_string() }));
                 out.count(if style == XrefStyle::Table { "histories_xref_table" } else { "histories_xref_stream" });
-                let fs = check_history(&h, wseed, style, objstm, &mut out);
+                let fs = if i % 16 == 6 { check_history_with(&h, wseed, style, objstm, true, &mut out) } else { check_history(&h, wseed, style, objstm, &mut out) };
                 out.digests.insert(crate::prng::fnv_bytes(format!("{:?}{:?}", h.revisions, wseed).as_bytes()));
                 for f in fs {
                     out.finding(f);
@@ -618,7 +634,7 @@ pub fn run(cfg: &RunCfg) -> (PropMeta, ShardOut, Map<String, Value>) {
     });
     let meta = PropMeta {
         level: "exploration",
-        rule: "(a) random histories base + 1..4 update revisions (each replacing a random subset and adding objects, trailer changes; one history in forty has 34..70 small updates that leave most objects to the oldest sections) written by the reference writer (xref tables or xref streams, updated objects plain or inside object streams): Document::load_mem of every prefix must equal the latest-wins model; (b) random edit scripts (set_object, opt_clone_object_to_new_document + mutation, add_object) through IncrementalDocument on lopdf-written and reference-written bases, 1..3 steps, after each step: previous bytes are a prefix, get_prev_documents() unchanged, the strict reader finds only the touched objects and exactly one new section with Prev = previous startxref, the result loads to the model; (c) one case in ten is a file in the layout of linearized documents: the newest section stands in front of the (older) main section its Prev names, 0..2 ordinary updates appended - it must load to the latest-wins merge along the Prev chain and survive an incremental update. distinct = distinct histories / final files.".into(),
+        rule: "(a) random histories base + 1..4 update revisions (each replacing a random subset and adding objects, trailer changes; one history in forty has 34..70 small updates that leave most objects to the oldest sections; one in sixteen is written with update sections that repeat the stale Size of the revision they update) written by the reference writer (xref tables or xref streams, updated objects plain or inside object streams): Document::load_mem of every prefix must equal the latest-wins model; (b) random edit scripts (set_object, opt_clone_object_to_new_document + mutation, add_object) through IncrementalDocument on lopdf-written and reference-written bases, 1..3 steps, after each step: previous bytes are a prefix, get_prev_documents() unchanged, the strict reader finds only the touched objects and exactly one new section with Prev = previous startxref, the result loads to the model; (c) one case in ten is a file in the layout of linearized documents: the newest section stands in front of the (older) main section its Prev names, 0..2 ordinary updates appended - it must load to the latest-wins merge along the Prev chain and survive an incremental update. distinct = distinct histories / final files.".into(),
         assumptions: vec![
             "one cross-reference style per file; hybrid files and objects freed in a later revision are outside the domain".into(),
             "raw CR/CRLF inside literal strings (C02's known finding) is switched off in the reference writer for this property".into(),
